@@ -241,6 +241,34 @@ if re.findall(r"_factor:\s*([0-9.]+)", resc) != ["1.0"] * 4:
 if len(re.findall(r"abort_signal_sender\.broadcast\(", strip_tests(controller))) != 2:
     brk("lint L4: abort broadcast send sites in controller.rs != 2", "C04,C06")
 
+# L5 log purity: the arguments of a log macro are only evaluated when that level is enabled, so "verbose changes nothing
+# but the log" holds statically as long as they are pure and total: field reads, Display, a fixed list of pure methods;
+# no division, no unwrap / expect, no other call; and no code guarded by `log_enabled!`
+PURE_IN_LOG = {"display", "to_string", "len", "get", "as_ref", "to_string_lossy", "elapsed", "as_secs_f64", "iter", "join",
+               "unwrap_or", "unwrap_or_default", "map", "collect", "clone", "as_str", "to_json", "is_empty", "keys", "values"}
+import glob as _glob
+for path in sorted(_glob.glob(os.path.join(SRC, "**", "*.rs"), recursive=True)):
+    name = os.path.relpath(path, SRC)
+    if name == "verif_hooks.rs":
+        continue
+    body = strip_tests(open(path).read())
+    if "log_enabled!" in body:
+        brk("lint L5 (log purity): `log_enabled!` guards code in src/%s" % name, "C15")
+    for m in re.finditer(r"\b(info|debug|trace|warn|error)!\s*\(", body):
+        i, d = m.end(), 1
+        while i < len(body) and d > 0:
+            d += {"(": 1, ")": -1}.get(body[i], 0)
+            i += 1
+        args = re.sub(r'"(?:[^"\\]|\\.)*"', '""', body[m.end():i - 1])
+        bad = [c for c in re.findall(r"\.([a-z_0-9]+)\(", args) if c not in PURE_IN_LOG]
+        bad += ["<free function %s>" % c for c in re.findall(r"(?<![.\w])([a-z_][a-z_0-9]*(?:::[a-zA-Z_0-9]+)*)\(", args) if c not in ("format", "String::from_utf8_lossy", "from_utf8_lossy")]
+        if "/" in args:
+            bad.append("<division>")
+        if re.search(r"\bunwrap\(\)|\bexpect\(", args):
+            bad.append("<unwrap>")
+        if bad:
+            brk("lint L5 (log purity): argument of %s! in src/%s calls %s" % (m.group(1), name, ", ".join(sorted(set(bad)))), "C15")
+
 # L1 panic-site inventory: compared with the committed expectation
 sites = {}
 for name in sorted(os.listdir(SRC)) if os.path.isdir(SRC) else []:
